@@ -81,11 +81,13 @@ static std::vector<std::string> exportedFunctions() {
 extern "C" size_t __sanitizer_get_current_allocated_bytes();
 static size_t liveBytes() { return __sanitizer_get_current_allocated_bytes(); }
 static const char* kLeakCounter = "__sanitizer_get_current_allocated_bytes";
+static const bool kAsan = true;
 #else
 // glibc's mallinfo2() counts chunks parked in the tcache / fastbins as in use, so it is not an exact live-byte
 // counter; without ASan the leak pass still runs (exactly-once destruction) but nothing is compared.
 static size_t liveBytes() { return 0; }
 static const char* kLeakCounter = "(no exact live-byte counter in this build)";
+static const bool kAsan = false;
 #endif
 
 static std::string F(const char* f, ...) {
@@ -856,6 +858,7 @@ struct Row {
   std::function<void(XW&)> x;
   std::function<bool(const std::vector<int>&)> filter;  // on pool indices (depth 1); rows with a filter are not depth-2 consumers
   bool primary = false;                                 // first argument tuple of its function
+  std::vector<int> lifecyclePin;                        // pool indices used by the life-cycle phase (default: entry 1 of every pool)
 };
 struct PoolEntry {
   const char* name;
@@ -1658,9 +1661,11 @@ static void rowsVectorsBooleansTransforms() {
   add(NAME(manifold_minkowski_sum), "", {tM, tM}, {tM}, [](CW& c) { c.out(manifold_minkowski_sum(c.mem(tM), c.m(0), c.m(1))); },
       [](XW& x) { x.out(x.m(0).MinkowskiSum(x.m(1))); })
       .filter = smallPair;
+  g_rows.back().lifecyclePin = {7, 7};
   add(NAME(manifold_minkowski_difference), "", {tM, tM}, {tM}, [](CW& c) { c.out(manifold_minkowski_difference(c.mem(tM), c.m(0), c.m(1))); },
       [](XW& x) { x.out(x.m(0).MinkowskiDifference(x.m(1))); })
       .filter = smallPair;
+  g_rows.back().lifecyclePin = {7, 7};
 
   // ---- 3D to 2D
   for (double h : {0.5, -0.25, 1.0})
@@ -2732,8 +2737,6 @@ int main(int argc, char** argv) {
     std::vector<std::pair<int, int>> entries;
     for (int t = 0; t < NTY; ++t)
       for (int i = 0; i < (int)g_pool[t].size(); ++i) entries.push_back({t, i});
-    static Row ident;
-    ident.fn = "pool";
     R.phase("pool", entries.size() * 2, 1,
             [&](uint64_t idx, Ctx& c) {
               auto e = entries[idx / 2];
@@ -2789,7 +2792,8 @@ int main(int argc, char** argv) {
       for (int q = 0; q < (int)g_rows.size(); ++q) {
         const Row &P = g_rows[p], &Q = g_rows[q];
         if (P.out.empty() || Q.filter) continue;
-        if (!thorough && !P.primary && !Q.primary) continue;  // quick: at least one of the two uses its first argument tuple
+        // quick: at least one of the two calls uses its first argument tuple (under ASan: both do)
+        if (!thorough && (kAsan ? !(P.primary && Q.primary) : !(P.primary || Q.primary))) continue;
         for (int o = 0; o < (int)P.out.size(); ++o)
           for (int j = 0; j < (int)Q.in.size(); ++j)
             if (P.out[o] == Q.in[j]) links.push_back({p, q, o, j});
@@ -2868,7 +2872,7 @@ int main(int argc, char** argv) {
               uint64_t nc = combos(r);
               std::vector<int> want(r.in.size());
               for (size_t i = 0; i < r.in.size(); ++i) want[i] = g_pool[r.in[i]].size() > 1 ? 1 : 0;
-              g.pin = want;
+              g.pin = r.lifecyclePin.empty() ? want : r.lifecyclePin;
               if (r.filter && !r.filter(g.pin)) {
                 bool found = false;
                 for (uint64_t q = 0; q < nc && !found; ++q) {
